@@ -113,6 +113,8 @@ func (e *Engine) enterBlock(st *State) ([]*State, bool) {
 			}
 		}
 		e.frameObligations(st, fr, fmt.Sprintf("loop%d:frame", k), pos)
+		// vacuity canary for the loop body: its assumptions (invariants, callee postconditions) must be consistent
+		e.oblige(st, "canary", pos, fmt.Sprintf("loop%d:body", k), "false")
 		st.dead = true
 		return nil, true
 	}
@@ -763,6 +765,9 @@ func (e *Engine) applyContract(st *State, fc *FuncContract, callee *ssa.Function
 		}
 	}
 	e.bindLets(post, fc)
+	// call counters are local to the activation they are counted in: in a callee's postcondition they denote values the
+	// caller knows nothing about (never the caller's own counters)
+	post.calleeCalls = map[string]string{}
 	for _, c := range fc.Ensures {
 		if c.Local {
 			continue
@@ -1040,6 +1045,10 @@ func (e *Engine) evalLoc(env *Env, x ast.Expr) []Loc {
 			}
 			if isStruct(pt.Elem()) {
 				return e.allLeaves(p.T, pt.Elem())
+			}
+			if at, ok := pt.Elem().Underlying().(*types.Array); ok && !isStruct(at.Elem()) {
+				// pointer to an array: the array's elements live in the element heap under the array's reference
+				return []Loc{{Heap: e.d.ElemHeapT(at.Elem()), Base: p.T}}
 			}
 			return []Loc{{Heap: e.d.BoxHeap(e.d.SortOf(pt.Elem())), Base: p.T}}
 		}
@@ -1421,7 +1430,7 @@ func (e *Engine) doReturn(st *State, in *ssa.Return) []*State {
 		}
 		e.frameObligations(st, fr, "frame", pos)
 	}
-	e.oblige(st, "canary", pos, "", "false")
+	e.oblige(st, "canary", pos, "return", "false")
 	st.dead = true
 	return nil
 }
